@@ -272,7 +272,13 @@ def convergence(ctx, rule):
     for p, impl in (("detector::is_sourcemap", "detector::is_sourcemap_impl(arg1)"), ("detector::is_sourcemap_slice", "detector::is_sourcemap_slice_impl(arg1)")):
         b = ctx.body(p)
         calls = [q.shape(b.expr_of_call(t)) for bi, t in b.calls()]
-        ctx.check(calls == [impl, "Result::unwrap_or(%s,0)" % impl], rule, p, "unwrap_or(false)", "errors read as 'not a sourcemap' on both paths", detail=str(calls))
+        ok = calls == [impl, "Result::unwrap_or(%s,0)" % impl]
+        if not ok and calls == [impl]:
+            # `matches!(impl(..), Ok(true))`: true exactly on the Ok side with a true payload, false everywhere else
+            ds = q.def_shapes(b, 0, {})
+            ones = [site for sh, site, _ in ds if sh == "1"]
+            ok = sorted(sh for sh, _, _ in ds) == ["0", "1"] and len(ones) == 1 and has_fact(b, ones[0][0], {}, ("true", "try(%s)" % impl, None)) and has_fact(b, ones[0][0], {}, ("variant_in", impl, (0,)))
+        ctx.check(ok, rule, p, "unwrap_or(false)", "errors read as 'not a sourcemap' on both paths", detail=str(calls))
     pairs = [("types::SourceMap", "Regular"), ("types::SourceMapIndex", "Index"), ("hermes::SourceMapHermes", "Hermes"), ]
     for ty, variant in pairs:
         for kind, dec in (("from_reader", "decoder::decode"), ("from_slice", "decoder::decode_slice")):
